@@ -10,6 +10,7 @@ Section NodeInd.
   Hypothesis HL : forall r p, P (NLeaf r p).
   Hypothesis HO : forall cid ch, Forall P ch -> P (NObj cid ch).
   Hypothesis HI : forall items, Forall P items -> P (NList items).
+  Hypothesis HD : forall items, Forall P (map snd items) -> P (NDict items).
   Fixpoint node_ind' (n: node) : P n :=
     match n with
     | NLeaf r p => HL r p
@@ -17,6 +18,10 @@ Section NodeInd.
                                    match l with [] => Forall_nil P | x :: r => Forall_cons x (node_ind' x) (go r) end) ch)
     | NList items => HI items ((fix go (l: list node) : Forall P l :=
                                   match l with [] => Forall_nil P | x :: r => Forall_cons x (node_ind' x) (go r) end) items)
+    | NDict items => HD items ((fix go (l: list (string * node)) : Forall P (map snd l) :=
+                                  match l with
+                                  | [] => Forall_nil P
+                                  | kx :: r => Forall_cons (snd kx) (node_ind' (snd kx)) (go r) end) items)
     end.
 End NodeInd.
 
@@ -43,6 +48,13 @@ Fixpoint go_items (f: node -> option fval) (l: list node) : option (list pv) :=
   | x :: r => match f x, go_items f r with
               | Some v, Some t => Some (snd v :: t)
               | _, _ => None end end.
+
+Fixpoint go_entries (f: node -> option fval) (l: list (string * node)) : option (list (string * pv)) :=
+  match l with
+  | [] => Some []
+  | (k, x) :: r => match f x, go_entries f r with
+                   | Some v, Some t => Some ((k, snd v) :: t)
+                   | _, _ => None end end.
 
 Section Table.
   Variable ct : list cls.
@@ -93,6 +105,22 @@ Section Table.
     { induction items as [|x r IH]; cbn; [reflexivity | rewrite IH; reflexivity]. }
     rewrite Hg. reflexivity.
   Qed.
+
+  Lemma pack_h_dict spec items members outer avail pd :
+    pack_h spec (NDict items) members outer avail pd =
+    match go_entries (fun x => pack_h spec x members outer avail pd) items with
+    | Some l => Some (POpq (S (List.length items)), PDict l)
+    | None => None end.
+  Proof.
+    cbn [OptNested.pack_h].
+    match goal with |- match ?g1 with _ => _ end = match ?g2 with _ => _ end => assert (Hg: g1 = g2) end.
+    { induction items as [|[k x] r IH]; cbn; [reflexivity | rewrite IH; reflexivity]. }
+    rewrite Hg. reflexivity.
+  Qed.
+
+  Lemma ok_h_dict items members outer avail pd :
+    ok_h (NDict items) members outer avail pd = forallb (fun kx => ok_h (snd kx) members outer avail pd) items.
+  Proof. cbn [OptNested.ok_h]. induction items as [|[k x] r IH]; cbn; [reflexivity | rewrite IH; reflexivity]. Qed.
 
   Lemma ok_h_obj cid ch members outer avail pd :
     ok_h (NObj cid ch) members outer avail pd =
@@ -163,7 +191,7 @@ Section Table.
     ok_h n members outer a2 pd = true ->
     pack_h false n members outer a1 pd = pack_h true n members outer a2 pd.
   Proof.
-    induction n as [raw packed | cid ch IH | items IH] using node_ind'; intros members outer a1 a2 pd Ha Hok.
+    induction n as [raw packed | cid ch IH | items IH | items IH] using node_ind'; intros members outer a1 a2 pd Ha Hok.
     - reflexivity.
     - rewrite !pack_h_obj. rewrite ok_h_obj in Hok.
       destruct (nth_error ct cid) as [c|]; [|discriminate].
@@ -196,6 +224,14 @@ Section Table.
       assert (Hgo: go_items (fun x => pack_h false x members outer a1 pd) items
                    = go_items (fun x => pack_h true x members outer a2 pd) items).
       { induction items as [|x r IHr]; cbn in *; [reflexivity|].
+        apply andb_true_iff in Hok. destruct Hok as [Hx Hrest].
+        inversion IH as [|? ? IHx IHrest]; subst.
+        rewrite (IHx members outer a1 a2 pd Ha Hx), (IHr IHrest Hrest). reflexivity. }
+      rewrite Hgo. reflexivity.
+    - rewrite !pack_h_dict. rewrite ok_h_dict in Hok.
+      assert (Hgo: go_entries (fun x => pack_h false x members outer a1 pd) items
+                   = go_entries (fun x => pack_h true x members outer a2 pd) items).
+      { induction items as [|[k x] r IHr]; cbn in *; [reflexivity|].
         apply andb_true_iff in Hok. destruct Hok as [Hx Hrest].
         inversion IH as [|? ? IHx IHrest]; subst.
         rewrite (IHx members outer a1 a2 pd Ha Hx), (IHr IHrest Hrest). reflexivity. }
